@@ -40,6 +40,18 @@ class StringConcatViolation:
     line_number: int
     column: int
     loop_type: str  # 'for', 'for_in', 'while', 'do'
+    scope_line: int = 0  # line of the enclosing function (0 = top level): names are per scope
+
+
+_FUNCTION_NODE_TYPES = frozenset(
+    {
+        "function_declaration",
+        "function_expression",
+        "generator_function_declaration",
+        "arrow_function",
+        "method_definition",
+    }
+)
 
 
 # thailint: ignore-next-line[srp.violation] Uses small focused methods to reduce complexity
@@ -120,8 +132,12 @@ class TypeScriptStringConcatAnalyzer(TypeScriptBaseAnalyzer):
             self._check_augmented_assignment(node, violations, current_loop)
 
         # Recurse into children
+        first_own = len(violations)
         for child in node.children:
             self._find_concat_in_loops(child, violations, current_loop)
+        if node.type in _FUNCTION_NODE_TYPES:
+            for violation in violations[first_own:]:
+                violation.scope_line = violation.scope_line or node.start_point[0] + 1
 
     def _check_augmented_assignment(
         self, node: Node, violations: list[StringConcatViolation], loop_type: str
@@ -225,12 +241,12 @@ class TypeScriptStringConcatAnalyzer(TypeScriptBaseAnalyzer):
         Returns:
             Deduplicated list with one violation per variable
         """
-        seen: set[str] = set()
+        seen: set[tuple[str, int]] = set()
         result: list[StringConcatViolation] = []
 
         for v in violations:
-            if v.variable_name not in seen:
-                seen.add(v.variable_name)
+            if (v.variable_name, v.scope_line) not in seen:
+                seen.add((v.variable_name, v.scope_line))
                 result.append(v)
 
         return result
